@@ -26,7 +26,13 @@ var (
 	dataMu  sync.Mutex
 )
 
-const Repo = "/repo"
+// Repo is the tree the samples are harvested from (VERIF_REPO overrides /repo).
+var Repo = func() string {
+	if d := os.Getenv("VERIF_REPO"); d != "" {
+		return d
+	}
+	return "/repo"
+}()
 
 func splitArgs(s string) []string {
 	var out []string
